@@ -411,6 +411,96 @@ def cmdShow (fields : List String) : Except String String :=
       | .err _ => .ok "err"
   | _ => .error "show: expected 2 fields"
 
+/-! ## serialisation of a model AST in the harness's S-expression format (sexp.go) -/
+
+def showR (r : Range) : String := s!"{r.s.line}:{r.s.char}-{r.e.line}:{r.e.char}"
+
+partial def serExpr : Expr → String
+  | .nil => "nil"
+  | .monetaryNil => "monnil"
+  | .var r n => s!"(var {showR r} {encStr n})"
+  | .asset r n => s!"(asset {showR r} {encStr n})"
+  | .account r n => s!"(acct {showR r} {encStr n})"
+  | .str r n => s!"(str {showR r} {encStr n})"
+  | .number r n => s!"(num {showR r} {n})"
+  | .ratio r n d => s!"(ratio {showR r} {n} {d})"
+  | .monetary r a b => s!"(mon {showR r} {serExpr a} {serExpr b})"
+  | .infix r op a b => s!"(infix {showR r} {match op with | .plus => "+" | .minus => "-"} {serExpr a} {serExpr b})"
+
+def serAllot : AllotVal → String
+  | .nil => "nil"
+  | .remaining r => s!"(rem {showR r})"
+  | .portion e => s!"(por {serExpr e})"
+
+partial def serSource : Source → String
+  | .nil => "nil"
+  | .account e => s!"(sacct {serExpr e})"
+  | .overdraft r a none => s!"(sover {showR r} {serExpr a})"
+  | .overdraft r a (some b) => s!"(sover {showR r} {serExpr a} {serExpr b})"
+  | .inorder r srcs => s!"(sin {showR r}" ++ String.join (srcs.map (fun x => " " ++ serSource x)) ++ ")"
+  | .capped r cap src => s!"(scap {showR r} {serExpr cap} {serSource src})"
+  | .allotment r items => s!"(sallot {showR r}" ++
+      String.join (items.map (fun | .mk ir a src => s!" (item {showR ir} {serAllot a} {serSource src})")) ++ ")"
+
+mutual
+  partial def serDest : Dest → String
+    | .nil => "nil"
+    | .account e => s!"(dacct {serExpr e})"
+    | .inorder r clauses rem => s!"(din {showR r} {serKoD rem}" ++
+        String.join (clauses.map (fun | .mk cr cap k => s!" (clause {showR cr} {serExpr cap} {serKoD k})")) ++ ")"
+    | .allotment r items => s!"(dallot {showR r}" ++
+        String.join (items.map (fun | .mk ir a k => s!" (item {showR ir} {serAllot a} {serKoD k})")) ++ ")"
+  partial def serKoD : KoD → String
+    | .nil => "nil"
+    | .kept r => s!"(kept {showR r})"
+    | .to d => s!"(to {serDest d})"
+end
+
+def serSent : SentValue → String
+  | .nil => "nil"
+  | .lit r e => s!"(lit {showR r} {serExpr e})"
+  | .all r e => s!"(all {showR r} {serExpr e})"
+
+def serCall (c : FnCall) : String :=
+  s!"(call {showR c.r} {showR c.callerRange} {encStr c.name}" ++ String.join (c.args.map (fun a => " " ++ serExpr a)) ++ ")"
+
+def serStatement : Statement → String
+  | .nil => "nil"
+  | .fnCallNil => "callnil"
+  | .send r sv src dst => s!"(send {showR r} {serSent sv} {serSource src} {serDest dst})"
+  | .save r sv e => s!"(save {showR r} {serSent sv} {serExpr e})"
+  | .fnCall c => serCall c
+
+def serDecl (d : VarDecl) : String :=
+  let nm := match d.name with | some (r, n) => s!"(name {showR r} {encStr n})" | none => "nil"
+  let ty := match d.type with | some (r, n) => s!"(type {showR r} {encStr n})" | none => "nil"
+  let og := match d.origin with | some c => serCall c | none => "nil"
+  s!"(decl {showR d.r} {nm} {ty} {og})"
+
+def serProgram (p : Program) : String :=
+  "(prog (vars" ++ String.join (p.vars.map (fun d => " " ++ serDecl d)) ++ ") (stmts" ++
+    String.join (p.stmts.map (fun s => " " ++ serStatement s)) ++ "))"
+
+/-- `parse <text>`: the model parser on a text; `ok <sexp>` or `reject` -/
+def cmdParse (fields : List String) : Except String String :=
+  match fields with
+  | [text] => do
+      let t ← decStr text
+      match parseProgram t.toList with
+      | some p => .ok s!"ok\t{serProgram p}"
+      | none => .ok "reject"
+  | _ => .error "parse: expected 1 field"
+
+/-- `lex <text>`: kinds and positions of the tokens (debugging aid) -/
+def cmdLex (fields : List String) : Except String String :=
+  match fields with
+  | [text] => do
+      let t ← decStr text
+      match lex t.toList with
+      | some ts => .ok ("ok\t" ++ " ".intercalate (ts.map (fun k => s!"{repr k.kind}@{k.line}:{k.col}+{k.text.length}")))
+      | none => .ok "reject"
+  | _ => .error "lex: expected 1 field"
+
 def dispatch (cmd : String) (fields : List String) : Except String String :=
   if cmd = "exec" then cmdExec fields
   else if cmd = "reconcile" then cmdReconcile fields
@@ -419,6 +509,8 @@ def dispatch (cmd : String) (fields : List String) : Except String String :=
   else if cmd = "allot" then cmdAllot fields
   else if cmd = "analyze" then cmdAnalyze fields
   else if cmd = "show" then cmdShow fields
+  else if cmd = "parse" then cmdParse fields
+  else if cmd = "lex" then cmdLex fields
   else .error s!"unknown command {cmd}"
 
 def handleLine (line : String) : String :=
